@@ -230,16 +230,19 @@ static void runDestroy(long idx) {
 // ---- "set releases all current waiters": W waiters proven parked inside wait(), then set() immediately followed by reset()
 #ifndef VERIF_NO_PTSHIMS
 extern "C" int verif_pt_waiters(const void* cond);
-struct PArg { Signal* sig; int returned; };
-static void* pulseWaiter(void* p) { PArg& a = *(PArg*)p; bool ok = a.sig->wait(); if (!ok) fail("Signal.wait/result", "untimed wait returned false"); __atomic_fetch_add(&a.returned, 1, RLX); return 0; }
+struct PArg { Signal* sig; int returned; int timedMask; int next; };
+static void* pulseWaiter(void* p) { PArg& a = *(PArg*)p; int me = __atomic_fetch_add(&a.next, 1, RLX); bool timed = (a.timedMask >> me) & 1;
+  bool ok = timed ? a.sig->wait(15000) : a.sig->wait();
+  if (!ok) fail(timed ? "Signal.set/then-reset/current-timed-waiter-not-released" : "Signal.wait/result", timed ? "a thread parked in wait(15000) when set() was called returned false (set(); reset() did not release it)" : "untimed wait returned false");
+  __atomic_fetch_add(&a.returned, 1, RLX); return 0; }
 #endif
 static void runPulse(long idx) {
   beginCase(idx);
 #ifndef VERIF_NO_PTSHIMS
   Rng r(opts.seed, 1195, (u64)idx); g_prim = "Signal";
   verif_pt_delay_permille = r.chance(1, 2) ? (int)r.range(20, 300) : 0; verif_pt_spurious_permille = 0;   // a spurious return would leave wait()'s inner cond_wait: keep the parked-proof exact
-  int W = (int)r.range(1, 4); PArg a; a.sig = new Signal; a.returned = 0; pthread_t th[4];
-  setctx("Signal.set/then-reset/current-waiters"); hist.addf("# pulse: %d waiters parked in wait(), then set(); reset()\n", W);
+  int W = (int)r.range(1, 4); PArg a; a.sig = new Signal; a.returned = 0; a.next = 0; a.timedMask = (int)r.below(16); pthread_t th[4];
+  setctx("Signal.set/then-reset/current-waiters"); hist.addf("# pulse: %d waiters parked in wait() / wait(15000) (timed mask %d), then set(); reset()\n", W, a.timedMask);
   for (int i = 0; i < W; ++i) pthread_create(&th[i], 0, pulseWaiter, &a);
   long spins = 0; while (verif_pt_waiters(a.sig->cdata) < W) { sched_yield(); if (++spins > 50000000) harnessBug("waiters never parked"); }
   // every waiter incremented the counter while holding the Signal's mutex; set() needs that mutex, so it runs only once all of them are parked in cond_wait
